@@ -17,6 +17,7 @@ def rest(E, it):
     """remaining items of an iterator value (Iter adt, Range adt with concrete bounds, Rev/other eager adapters)"""
     it = E.deref(it) if isinstance(it, Ref) else it
     if isinstance(it, Adt) and it.ty == 'Iter': return list(it.fields[0].fields[it.fields[1]:])
+    if isinstance(it, Adt) and it.ty == 'PeekChars': return list(it.fields[0].fields[it.fields[1]:])          # a Peekable cursor (strmodels): the items not yet taken
     if isinstance(it, Adt) and (it.ty == 'Range' or it.ty.endswith('::Range')):
         lo, hi = (z3.simplify(x) for x in it.fields)
         if not (z3.is_int_value(lo) and z3.is_int_value(hi)): raise Missing('iterator adaptor over a range with symbolic bounds')
